@@ -44,6 +44,8 @@ def run(ctx):
     ctx.do(rule_every_function, rule_id="C07.validate-first")
     ctx.do(rule_set_is_clear_then_add)
     ctx.do(rule_normal_form)
+    from .hidden_state import rule_no_hidden_state
+    ctx.do(rule_no_hidden_state, "C07.history-independence")
 
 
 def rule_dispatch(ctx):
